@@ -73,7 +73,7 @@ CLAIMED = {
          "DESIGN.md §6 C15"),
  "C13": ("proof",
          "the four JSON schemas regenerated from yamlspecification.json as Lean terms on every run + Lean 4 model of load/verify/convert/Study construction (Model/Spec.lean, schema evaluator for the keywords used) + theorems: accept-soundness (accepted => schema-valid sections with their proved consequences, >=1 step, distinct names, no self/undefined dependency, equal parameter lengths), characterisation of every internal-error source, accepted steps = document steps, priority names understood (decide over regenerated tables), proved counterexamples + structural-mutation correspondence with the real load -> environment -> steps -> parameters -> Study path, Draft7-validity correspondence per section, independent rule oracle / staging monitor",
-         "Accept-soundness and the internal-error characterisation are theorems for every document (any tree of mappings, lists and scalars); schema consequences are re-proved against the regenerated schema term, so weakening the schema file breaks a proof. 'Never an internal error' is false without hypotheses: three sources remain (known findings with Lean witnesses: _verify_dependencies on spack/git/path blocks, non-string sources, a step named _source); nine other defects were repaired ('fix:' commits). Usability after acceptance (conversion, Study, staging) is decided by the correspondence and the staging monitor on the real code; staging itself is C08's model.",
+         "Accept-soundness and the internal-error characterisation are theorems for every document (any tree of mappings, lists and scalars); schema consequences are re-proved against the regenerated schema term, so weakening the schema file breaks a proof. 'Never an internal error' (load never crashes) is a theorem at full strength for every document since the repairs of _verify_steps, the sources schema and _verify_dependencies (14 'fix:' commits in all for this property). One known finding remains and is reported on every run: a step name that holds a $(VAR) token passes the validator and Study construction then raises ValueError (the node is filed under the raw name, the edges under the substituted one); the Spec model takes names as written, so such documents are judged by the monitor only. Usability after acceptance (conversion, Study, staging) is decided by the correspondence and the staging monitor on the real code; staging itself is C08's model.",
          "Trusted: Lean kernel; standard axioms; the translator (unsupported schema constructs are listed in Gen/Schema and must be proved empty); PyYAML parsing (documents are compared as parsed trees: duplicate mapping keys are collapsed by the loader before the code sees them; non-string keys and floats that are not multiples of 0.1 are outside the model); jsonschema Draft7 semantics modelled for the keywords used and validated per section on every run; file-system dependent failures (a dependency path that does not exist) are outside the model.",
          "DESIGN.md §6 C13"),
  "C14": ("proof",
